@@ -89,6 +89,9 @@ def gen_case(rng: Rng, i: int, tier: str):
         # EncodedHeader record rewritten to declare hundreds of folders over that one packed stream
         return {"base": {"bigheader": {"members": 1500, "namelen": 150}}, "kind": "many_header_folders", "mseed": r.randrange(1 << 30),
                 "seq": [{"op": "getnames"}], "open": r.pick(["stream", "path"]), "chunk": 128000000, "folders": r2.pick([700, 1300])}
+    if r2.chance(0.03):
+        # directed: the start header itself declares a next header (size / offset) far beyond the file, its CRC re-sealed
+        kind = "sigheader"
     if r2.chance(0.15):
         # directed: declared quantities (sizes, positions, counts) far beyond the input, every reading call once
         kind = "sizes"
@@ -236,6 +239,20 @@ def make_input(case):
             desc.append("%s/%s %r->%r" % (toks[k].section, toks[k].label, old, toks[k].val))
         raw = M.serialise(toks)
         data = W.reseal(img, raw, keep_upto=32 + (a.data_end or 0) if a.header_kind == "encoded" else None)
+        entered = True
+    elif kind == "sigheader" and len(img) >= 32:
+        import zlib as _z
+
+        nofs, nsize, ncrc = struct.unpack("<QQI", img[12:32])
+        which = r.pick(["size", "size", "offset", "both"])
+        big = lambda: r.pick([1 << 30, (1 << 31) - 1, 1 << 31, 1 << 32, (1 << 32) + 5, 1 << 40, (1 << 63) - 1, 1 << 63, (1 << 64) - 1, len(img), len(img) * 3])
+        if which in ("size", "both"):
+            nsize = big()
+        if which in ("offset", "both"):
+            nofs = big()
+        start = struct.pack("<QQI", nofs, nsize, ncrc)
+        data = img[:8] + struct.pack("<I", _z.crc32(start) & 0xFFFFFFFF) + start + img[32:]
+        desc = ["start header: next header offset %d size %d (file has %d bytes), start-header CRC re-sealed" % (nofs, nsize, len(img))]
         entered = True
     elif kind == "garbage_header" and a is not None:
         raw = bytes([1]) + r.bytes_(r.randint(0, 60))
